@@ -1,6 +1,6 @@
 (* Extract.v — extraction of the executable models and monitors (ExtrOcamlBasic only). *)
-From QV Require Import Base Fields SrcFacts Msg SrcDecisions Cache CacheSpec Decoder Encoder Sim Prober Hostname Resolver Provider ProviderSpec Browser BrowserSpec.
+From QV Require Import Base Fields SrcFacts Msg SrcDecisions Cache CacheSpec Decoder Encoder Sim Prober Hostname Resolver Provider ProviderSpec Browser BrowserSpec Values.
 Require Extraction.
 Require Import ExtrOcamlBasic.
 Extraction Language OCaml.
-Extraction "model.ml" crun_g mon_cache from_packet parse_name parse_record to_packet prober_run mon_prober host_run mon_hostname spec_host_reply res_run mon_resolver comp_run mon_provider spec_prov_reply world_run mon_browser empty_cache default_record default_query default_message record_eqb service_eqb.
+Extraction "model.ml" crun_g mon_cache from_packet parse_name parse_record to_packet prober_run mon_prober host_run mon_hostname spec_host_reply res_run mon_resolver comp_run mon_provider spec_prov_reply world_run mon_browser values_run values_pure empty_cache default_record default_query default_message record_eqb service_eqb.
